@@ -185,13 +185,19 @@ void snoopy_configuration_ctor ()
     /* Get config pointer */
     snoopy_configuration_t *CFG = snoopy_configuration_get();
 
-    /* Parse INI file if enabled */
+    /* Parse INI file if enabled (string values get replaced: no fork() by other threads meanwhile) */
+#ifdef SNOOPY_CONF_THREAD_SAFETY_ENABLED
+    snoopy_tsrm_forkGuard_enter();
+#endif
     if (NULL != snoopy_configuration_altConfigFilePath) {
         // This is used by Snoopy testing suite - combined tests
         snoopy_configfile_load(snoopy_configuration_altConfigFilePath);
     } else {
         snoopy_configfile_load(CFG->configfile_path);
     }
+#ifdef SNOOPY_CONF_THREAD_SAFETY_ENABLED
+    snoopy_tsrm_forkGuard_leave();
+#endif
 #endif
 }
 
@@ -217,6 +223,12 @@ void snoopy_configuration_dtor ()
 
     /* Get config pointer */
     CFG = snoopy_configuration_get();
+
+
+    /* String values get released below: no fork() by other threads meanwhile */
+#ifdef SNOOPY_CONF_THREAD_SAFETY_ENABLED
+    snoopy_tsrm_forkGuard_enter();
+#endif
 
 
     /*
@@ -326,6 +338,10 @@ void snoopy_configuration_dtor ()
      * calls of this process, even after they get removed from the configuration file.
      */
     snoopy_configuration_setDefaults(CFG);
+
+#ifdef SNOOPY_CONF_THREAD_SAFETY_ENABLED
+    snoopy_tsrm_forkGuard_leave();
+#endif
 }
 
 
